@@ -49,7 +49,7 @@ func forgedSuccessor(first *BlockInfo, commit *types.Commit) *types.Block {
 }
 
 // assemble builds, for block bi and round, a commit from the votes seen in the run.
-func (w *World) assemble(bi *BlockInfo, round uint32, vals *types.ValidatorSet, relabel bool) (*types.Commit, int) {
+func (w *World) assemble(bi *BlockInfo, round uint32, vals *types.ValidatorSet, relabel, withNil bool) (*types.Commit, int) {
 	sigs := make([]types.CommitSig, len(vals.Validators))
 	n := 0
 	for i, val := range vals.Validators {
@@ -75,6 +75,20 @@ func (w *World) assemble(bi *BlockInfo, round uint32, vals *types.ValidatorSet, 
 		if pick != nil {
 			sigs[i] = types.NewCommitSigForBlock(pick.Signature, pick.ValidatorAddress, pick.Timestamp)
 			n++
+		} else if withNil {
+			// the validator's genuine precommit for nil in this round, entered with the nil flag
+			for _, v := range w.VoteReg {
+				if v.Height == bi.Height && v.Round == round && v.ValidatorAddress == val.Address && v.BlockID.IsZero() &&
+					(v.Type == kproto.PrecommitType || (relabel && v.Type == kproto.PrevoteType)) {
+					if pick == nil || string(v.Signature) < string(pick.Signature) {
+						pick = v
+					}
+				}
+			}
+			if pick != nil {
+				sigs[i] = types.CommitSig{BlockIDFlag: types.BlockIDFlagNil, ValidatorAddress: pick.ValidatorAddress, Timestamp: pick.Timestamp, Signature: pick.Signature}
+				n++
+			}
 		}
 	}
 	return types.NewCommit(bi.Height, round, bi.ID, sigs), n
@@ -143,13 +157,16 @@ func (b *BlockSync) OnEnd(w *World) {
 				}
 			}
 			for round := uint32(1); round <= w.Cfg.MaxRound+1 && round <= 8; round++ {
-				if c, n := w.assemble(bi, round, vals, false); n > 0 {
-					offers = append(offers, offer{"forged-from-precommits", forgedSuccessor(bi, c)})
+				c0, n0 := w.assemble(bi, round, vals, false, false)
+				if n0 > 0 {
+					offers = append(offers, offer{"forged-from-precommits", forgedSuccessor(bi, c0)})
 				}
-				cp, np := w.assemble(bi, round, vals, false)
-				if c, n := w.assemble(bi, round, vals, true); n > np {
-					_ = cp
+				if c, n := w.assemble(bi, round, vals, true, false); n > n0 {
 					offers = append(offers, offer{"forged-from-relabelled-prevotes", forgedSuccessor(bi, c)})
+				}
+				// nil precommits of the round entered with the nil flag next to the (Byzantine) precommits for the block
+				if c, n := w.assemble(bi, round, vals, false, true); n > n0 && n0 > 0 {
+					offers = append(offers, offer{"forged-with-nil-precommits", forgedSuccessor(bi, c)})
 				}
 			}
 			offers = append(offers, offer{"successor-without-signatures", forgedSuccessor(bi, types.NewCommit(h, 1, bi.ID, make([]types.CommitSig, len(vals.Validators))))})
